@@ -61,6 +61,8 @@ pub const TARGETS: &[FnTarget] = &[
     FnTarget { file: "vm.rs", owner: Some("ObjStringStore"), name: "insert", lean: "store_insert", havoc: &[], ignore_cfg_features: &[] },
     FnTarget { file: "vm.rs", owner: Some("Vm"), name: "load_fiber", lean: "vm_load_fiber", havoc: &[], ignore_cfg_features: &[] },
     FnTarget { file: "vm.rs", owner: Some("Vm"), name: "unload_fiber", lean: "vm_unload_fiber", havoc: &[], ignore_cfg_features: &[] },
+    FnTarget { file: "vm.rs", owner: Some("Vm"), name: "call_closure", lean: "vm_call_closure", havoc: &[], ignore_cfg_features: &[] },
+    FnTarget { file: "vm.rs", owner: Some("Vm"), name: "return_impl", lean: "vm_return_impl", havoc: &[], ignore_cfg_features: &[] },
 ];
 
 pub struct FnBodies {
@@ -224,6 +226,10 @@ fn translate_one(srcs: &[Src], db: &TypeDb, consts: &BTreeMap<String, i128>, t: 
                     if cx.vm_mode && ty == LT::Struct("ObjFiber".to_string()) {
                         // a fiber handed to a method of the interpreter: the number that names it
                         ty = LT::FiberId;
+                    }
+                    if cx.vm_mode && ty == LT::Struct("ObjClosure".to_string()) {
+                        // a closure handed to the call mechanism: (slots its function reserves, first instruction, the closure as a value)
+                        ty = LT::ClosureRec;
                     }
                     if matches!(ty, LT::Struct(_)) {
                         // an object parameter: its fields are read as places `<param>.<field>` (inputs of the Lean function)
